@@ -122,7 +122,7 @@ def gen_world(rs: int, P: dict) -> dict:
     rvar = sub(rs, "variant").random()
     if rvar < P.get("long_chain", 0.02) and P["net"] == "custom":
         # many sessions one after the other on one or two stations (a station's 10th, 20th, ... occupant)
-        P = dict(P, stations=(1, 2), horizon=(40, 90), sessions_cap=40, chain_fill=(0.97, 1.0), b2b=0.85, hot=0.05)
+        P = dict(P, stations=(1, 2), horizon=(40, 90), sessions_cap=40, chain_fill=(0.97, 1.0), b2b=0.85, hot=0.05, max_stay=4)
     r = sub(rs, "shape")
     n_st = r.randint(*P["stations"])
     names = STATION_NAMES[:n_st]
@@ -283,7 +283,7 @@ def gen_world(rs: int, P: dict) -> dict:
                     hs = [h for h in hot if h >= t]
                     if hs:
                         a = hs[0]
-                stay = 1 if rc.random() < 0.15 else rc.randint(1, max(1, T // 2))
+                stay = 1 if rc.random() < 0.15 else rc.randint(1, max(1, min(T // 2, P.get("max_stay") or T)))
                 d = a + stay
                 if rc.random() < P["hot"]:
                     hs = [h for h in hot if h > a]
